@@ -74,29 +74,36 @@ def lengths(rep, F):
             rep.ok("R16.2", "Line")
         else:
             rep.bad("R16.2", "Line", "Line length is %s" % r[:100], where=fn.loc())
-        for ty, src in (("line_string::LineString", "lines(a1)"), ("multi_line_string::MultiLineString", "a1")):
+        # LineString of 3 coordinates / MultiLineString of 2 members (exact unrolling, loop or fold alike): the result is, as a sum, exactly the
+        # distances of the consecutive segments / the lengths of the members
+        LSp = GT + "line_string::LineString"
+        elems = tuple(("index", ("field", ("deref", ("arg", 1)), "0"), ("const", k)) for k in range(3))
+        cases = [("LineString", "line_string::LineString", ("&", ("adt", LSp, "LineString", (("call", "vec!", (("array", elems),)),))), [r"Distance.*::distance$"],
+                  ["distance(a2, Point::Point(into(a1.0[0])), Point::Point(into(a1.0[1])))", "distance(a2, Point::Point(into(a1.0[1])), Point::Point(into(a1.0[2])))"]),
+                 ("MultiLineString", "multi_line_string::MultiLineString", ("&", ("adt", GT + "multi_line_string::MultiLineString", "MultiLineString", (("call", "vec!", (("array", elems[:2]),)),))),
+                  [r"LengthMeasurable.*::length$"], ["length(a1.0[0], a2)", "length(a1.0[1], a2)"])]
+        for name, ty, val, noinl, want_terms in cases:
             fn = F.impl_method(LMs, r"^%s%s<F>$" % (GT, ty), None, "length", crates=("geo",))
-            ps = [p for p in opaque(F, loop_bound=1).run(fn) if p.kind == "ret"]
-            okk = False
-            bad = None
-            for p in ps:
-                nexts = [v for t, v in p.pc if t[0] == "discr" and isinstance(t[1], tuple) and t[1][0] == "call" and t[1][1].endswith("::next")]
-                r = bare(p.ret)
-                if nexts == [0] and r != "zero()":
-                    bad = "empty input gives %s" % r[:60]
-                if nexts == [1, 0]:
-                    if re.match(r"^add\(zero\(\), length\(.*as Some\)\.0, a2\)\)$", r):
-                        okk = True
-                    else:
-                        bad = "one member gives %s, expected 0 + member.length(metric)" % r[:100]
-                it = [c for c in calls_of(p) if c[1].endswith("::into_iter")]
-                if it and src not in bare(it[0][2][0]):
-                    bad = "iterates over %s" % bare(it[0][2][0])[:60]
-            name = ty.split("::")[-1]
-            if okk and not bad:
+            ps = Symex(F, inline_crates=("geo", "geo_types"), no_inline=noinl, loop_bound=8, concrete_iters=True).run(fn, args=[val, ("arg", 2)])
+            if len(ps) != 1 or ps[0].kind != "ret" or ps[0].pc:
+                rep.bad("R16.2", name, "%s length has %d result paths" % (name, len(ps)), where=fn.loc())
+                continue
+            terms = []
+
+            def flat(t):
+                while t[0] in ("&", "deref"):
+                    t = t[1]
+                if t[0] == "call" and t[1].rsplit("::", 1)[-1] in ("add", "sum") and len(t[2]) == 2:
+                    flat(t[2][0])
+                    flat(t[2][1])
+                elif not (t[0] == "call" and t[1].rsplit("::", 1)[-1] == "zero"):
+                    terms.append(bare(t).replace("start_point(", "Point::Point(into(").replace("end_point(", "Point::Point(into("))
+            flat(ps[0].ret)
+            norm = lambda x: re.sub(r"into\(into\(", "into(", x)
+            if sorted(norm(t) for t in terms) == sorted(want_terms):
                 rep.ok("R16.2", name)
             else:
-                rep.bad("R16.2", name, "%s length is not the sum of its members' lengths (%s)" % (name, bad), where=fn.loc())
+                rep.bad("R16.2", name, "%s length is the sum of %s, expected exactly %s" % (name, [t[:80] for t in terms], want_terms), where=fn.loc())
     except (KeyError, Unanalysable, IndexError) as e:
         rep.bad("R16.2", "anchor", str(e))
 
